@@ -203,6 +203,7 @@ func c03Configs(thorough bool) []c03cfg {
 		{name: "nested", producers: [][]ptask{{ne}, {lo}}},
 		{name: "pre257low+1", preLow: 257, producers: [][]ptask{{lo}}},
 		{name: "pre1024high+1", preHigh: 1024, producers: [][]ptask{{lo}}},
+		{name: "pre1024high+hh", preHigh: 1024, producers: [][]ptask{{hi, hi}}},
 	}
 	if thorough {
 		cfgs = append(cfgs,
@@ -258,6 +259,11 @@ func TestMC_C03(t *testing.T) {
 		cfg := mk(c)
 		if c.preLow+c.preHigh > 0 {
 			cfg.Bounds = []sched.Bound{{PB: 0}, {PB: 1}}
+			if thorough || c.name == "pre1024high+hh" {
+				// one producer's two high-priority requests around the 1024-task threshold: needs a
+				// switch to the loop and back
+				cfg.Bounds = append(cfg.Bounds, sched.Bound{PB: 2})
+			}
 		}
 		st, vs := sched.Explore(cfg)
 		if st.Steps == 0 {
